@@ -226,7 +226,9 @@ None."""
             if self._cachestore is not None:
                 self._cachestore.store(filename, parser)
 
-        for include in parser.get_namespace().includes:
+        # 'includes' is a set: iterate it in a fixed order, the order of
+        # self._parsed_includes decides which namespace resolves a C type
+        for include in sorted(parser.get_namespace().includes):
             if include.name not in self._parsed_includes:
                 dep_filename = self._find_include(include)
                 self._parse_include(dep_filename)
